@@ -301,10 +301,13 @@ func c20Unregister(c *Ctx) {
 		ld, ok := v.(*ssa.UnOp)
 		return ok && ld.Op == token.MUL && ld.X == ssa.Value(tablesG)
 	}
-	for _, b := range newFn.Blocks {
-		for _, in := range b.Instrs {
-			if mu, ok := in.(*ssa.MapUpdate); ok && isTablesLoad(mu.Map) {
-				regs = append(regs, mu)
+	nsc := c.Scope(newFn)
+	for _, f := range nsc.Funcs {
+		for _, b := range f.Blocks {
+			for _, in := range b.Instrs {
+				if mu, ok := in.(*ssa.MapUpdate); ok && isTablesLoad(mu.Map) {
+					regs = append(regs, mu)
+				}
 			}
 		}
 	}
@@ -312,34 +315,82 @@ func c20Unregister(c *Ctx) {
 		c.R.Unk(rule, "s3db.New: registers the table", c.P.Pos(newFn.Pos()), "no 'tables[name] = table' in New")
 		return
 	}
-	delBlocks := map[*ssa.BasicBlock]bool{}
-	for _, call := range an.Calls(newFn) {
-		if bi, ok := call.Common().Value.(*ssa.Builtin); ok && bi.Name() == "delete" && isTablesLoad(call.Common().Args[0]) {
-			if _, isDefer := call.(*ssa.Defer); !isDefer {
-				delBlocks[call.Block()] = true
+	// errorExitAfter(f, from): position of an error return of f reachable after instruction-block
+	// `from` without deregistration; viaFailureOnly: only counts returns not explained by the
+	// failure of the helper call at `site` (those mean: the helper did not register)
+	errorExitAfter := func(f *ssa.Function, from *ssa.BasicBlock, site ssa.CallInstruction) token.Pos {
+		delBlocks := map[*ssa.BasicBlock]bool{}
+		for _, call := range an.Calls(f) {
+			if bi, ok := call.Common().Value.(*ssa.Builtin); ok && bi.Name() == "delete" && isTablesLoad(call.Common().Args[0]) {
+				if _, isDefer := call.(*ssa.Defer); !isDefer {
+					delBlocks[call.Block()] = true
+				}
 			}
 		}
-	}
-	// a deferred closure that deletes when the *returned* error is non-nil
-	deferredOK := deferredCleanupOnResultError(newFn, isTablesLoad)
-	for i, mu := range regs {
-		bad := token.NoPos
-		for _, b := range newFn.Blocks {
+		deferredOK := deferredCleanupOnResultError(f, isTablesLoad)
+		// blocks only reached when the helper at `site` failed
+		var failSide *ssa.BasicBlock
+		if site != nil {
+			if ev, hasErr := an.ErrResult(site); hasErr && ev != nil {
+				fl := an.AnalyzeErr(f, ev)
+				for _, t := range fl.NilTests {
+					failSide = t.NonNil
+				}
+			}
+		}
+		for _, b := range f.Blocks {
 			ret, ok := b.Instrs[len(b.Instrs)-1].(*ssa.Return)
-			if !ok || an.IsNilConst(an.RetErr(ret)) {
+			if !ok || len(ret.Results) == 0 || an.IsNilConst(an.RetErr(ret)) {
 				continue
 			}
-			reach := b == mu.Block() || an.ReachableFromBlock(mu.Block(), b, nil)
-			if !reach {
+			if !an.IsErrorType(ret.Results[len(ret.Results)-1].Type()) {
 				continue
 			}
-			if delBlocks[b] || !reachAvoiding(mu.Block(), b, delBlocks) && len(delBlocks) > 0 {
+			if !(b == from || an.ReachableFromBlock(from, b, nil)) {
+				continue
+			}
+			if failSide != nil && len(failSide.Preds) == 1 && (failSide == b || failSide.Dominates(b)) {
+				continue // the helper reported failure: by (i) below it had not registered
+			}
+			if delBlocks[b] || (len(delBlocks) > 0 && !reachAvoiding(from, b, delBlocks)) {
 				continue
 			}
 			if deferredOK {
 				continue
 			}
-			bad = ret.Pos()
+			return ret.Pos()
+		}
+		return token.NoPos
+	}
+	for i, mu := range regs {
+		bad := token.NoPos
+		// (i) inside the function that registers; (ii) in every caller up to New, after the call
+		f := mu.Parent()
+		from := mu.Block()
+		var site ssa.CallInstruction
+		for {
+			if p := errorExitAfter(f, from, site); p.IsValid() {
+				bad = p
+				break
+			}
+			if f == newFn {
+				break
+			}
+			up := nsc.Lift(mu)
+			// walk one level up: find the call instruction in the parent through which f is reached
+			var next ssa.CallInstruction
+			for _, call := range nsc.Calls() {
+				if call.Common().StaticCallee() == f {
+					next = call
+				}
+			}
+			_ = up
+			if next == nil {
+				break
+			}
+			site = next
+			f = next.Parent()
+			from = next.Block()
 		}
 		c.R.Cond(!bad.IsValid(), rule, fmt.Sprintf("s3db.New: registration #%d is undone on every later error exit", i+1), c.P.Pos(mu.Pos()),
 			"no error return is reachable after the table was put into the registry (or each one deregisters first)",
